@@ -1,0 +1,151 @@
+//go:build verif
+
+package bloom
+
+// Contracts for the deductive verifier in /verif (comment-only; build tag verif).
+
+//@ guard bloom.Filter.msgFilterLoad by mtx
+
+//@ func bloom.MurmurHash3
+//@   requires len(data) < 4294967296
+//@   ensures result == murmur.hash(seed, data, len(data))
+//@   modifies nothing
+//@   loop 1 invariant i <= numBlocks && hash == murmur.blocks(seed, data, int(i))
+//@   loop 1 decreases int(numBlocks) - int(i)
+
+//@ func bloom.(*Filter).hash
+//@   requires held(bf.mtx) && bf.msgFilterLoad != nil && 1 <= len(bf.msgFilterLoad.Filter) && len(bf.msgFilterLoad.Filter) <= 36000 && len(data) < 4294967296
+//@   ensures result == bloom.bitidx(hashNum, bf.msgFilterLoad.Tweak, data, len(data), len(bf.msgFilterLoad.Filter))
+//@   ensures int(result) < 8 * len(bf.msgFilterLoad.Filter)
+//@   modifies nothing
+
+//@ func bloom.(*Filter).matches
+//@   requires held(bf.mtx) && len(data) < 4294967296
+//@   requires bf.msgFilterLoad != nil ==> len(bf.msgFilterLoad.Filter) <= 36000
+//@   ensures bf.msgFilterLoad == nil ==> !result
+//@   ensures bf.msgFilterLoad != nil && len(bf.msgFilterLoad.Filter) >= 1 ==> (result <==> forall k u32 :: k < bf.msgFilterLoad.HashFuncs ==> bloom.bitset(bf.msgFilterLoad.Filter, bloom.bitidx(k, bf.msgFilterLoad.Tweak, data, len(data), len(bf.msgFilterLoad.Filter))))
+//@   modifies nothing
+//@   opaque bloom.bitidx
+//@   loop 1 invariant i <= bf.msgFilterLoad.HashFuncs
+//@   loop 1 invariant forall k u32 :: k < i ==> bloom.bitset(bf.msgFilterLoad.Filter, bloom.bitidx(k, bf.msgFilterLoad.Tweak, data, len(data), len(bf.msgFilterLoad.Filter)))
+//@   loop 1 decreases int(bf.msgFilterLoad.HashFuncs) - int(i)
+
+//@ func bloom.(*Filter).add
+//@   requires held(bf.mtx) && len(data) < 4294967296
+//@   requires bf.msgFilterLoad != nil ==> disjoint(data, bf.msgFilterLoad.Filter)
+//@   requires bf.msgFilterLoad != nil ==> len(bf.msgFilterLoad.Filter) <= 36000
+//@   ensures bf.msgFilterLoad == old(bf.msgFilterLoad) && held(bf.mtx)
+//@   ensures bf.msgFilterLoad != nil ==> len(bf.msgFilterLoad.Filter) == old(len(bf.msgFilterLoad.Filter)) && bf.msgFilterLoad.HashFuncs == old(bf.msgFilterLoad.HashFuncs) && bf.msgFilterLoad.Tweak == old(bf.msgFilterLoad.Tweak)
+//@   ensures bf.msgFilterLoad != nil ==> forall j :: 0 <= j && j < len(bf.msgFilterLoad.Filter) ==> bf.msgFilterLoad.Filter[j] == old(bf.msgFilterLoad.Filter[j]) | bloom.mask(j, bf.msgFilterLoad.HashFuncs, bf.msgFilterLoad.Tweak, data, len(data), len(bf.msgFilterLoad.Filter))
+//@   ensures bf.msgFilterLoad != nil && len(bf.msgFilterLoad.Filter) >= 1 ==> forall k u32 :: k < bf.msgFilterLoad.HashFuncs ==> bloom.bitset(bf.msgFilterLoad.Filter, bloom.bitidx(k, bf.msgFilterLoad.Tweak, data, len(data), len(bf.msgFilterLoad.Filter)))
+//@   modifies bf.msgFilterLoad.Filter[*]
+//@   opaque bloom.bitidx
+//@   loop 1 modifies bf.msgFilterLoad.Filter[*]
+//@   loop 1 invariant i <= bf.msgFilterLoad.HashFuncs
+//@   loop 1 invariant forall k u32 :: k < i ==> bloom.bitset(bf.msgFilterLoad.Filter, bloom.bitidx(k, bf.msgFilterLoad.Tweak, data, len(data), len(bf.msgFilterLoad.Filter)))
+//@   loop 1 invariant forall j :: 0 <= j && j < len(bf.msgFilterLoad.Filter) ==> bf.msgFilterLoad.Filter[j] == old(bf.msgFilterLoad.Filter[j]) | bloom.mask(j, i, bf.msgFilterLoad.Tweak, data, len(data), len(bf.msgFilterLoad.Filter))
+//@   loop 1 decreases int(bf.msgFilterLoad.HashFuncs) - int(i)
+
+//@ func bloom.(*Filter).Add
+//@   requires !held(bf.mtx) && len(data) < 4294967296
+//@   requires bf.msgFilterLoad != nil ==> len(bf.msgFilterLoad.Filter) <= 36000 && disjoint(data, bf.msgFilterLoad.Filter)
+//@   ensures !held(bf.mtx) && bf.msgFilterLoad == old(bf.msgFilterLoad)
+//@   ensures bf.msgFilterLoad != nil ==> len(bf.msgFilterLoad.Filter) == old(len(bf.msgFilterLoad.Filter))
+//@   ensures bf.msgFilterLoad != nil ==> forall j :: 0 <= j && j < len(bf.msgFilterLoad.Filter) ==> bf.msgFilterLoad.Filter[j] == old(bf.msgFilterLoad.Filter[j]) | bloom.mask(j, bf.msgFilterLoad.HashFuncs, bf.msgFilterLoad.Tweak, data, len(data), len(bf.msgFilterLoad.Filter))
+//@   ensures bf.msgFilterLoad != nil && len(bf.msgFilterLoad.Filter) >= 1 ==> forall k u32 :: k < bf.msgFilterLoad.HashFuncs ==> bloom.bitset(bf.msgFilterLoad.Filter, bloom.bitidx(k, bf.msgFilterLoad.Tweak, data, len(data), len(bf.msgFilterLoad.Filter)))
+//@   modifies bf.mtx, bf.msgFilterLoad.Filter[*]
+//@   opaque bloom.bitidx
+
+//@ func bloom.(*Filter).Matches
+//@   requires !held(bf.mtx) && len(data) < 4294967296
+//@   requires bf.msgFilterLoad != nil ==> len(bf.msgFilterLoad.Filter) <= 36000
+//@   ensures !held(bf.mtx)
+//@   ensures bf.msgFilterLoad == nil ==> !result
+//@   ensures bf.msgFilterLoad != nil && len(bf.msgFilterLoad.Filter) >= 1 ==> (result <==> forall k u32 :: k < bf.msgFilterLoad.HashFuncs ==> bloom.bitset(bf.msgFilterLoad.Filter, bloom.bitidx(k, bf.msgFilterLoad.Tweak, data, len(data), len(bf.msgFilterLoad.Filter))))
+//@   modifies bf.mtx
+//@   opaque bloom.bitidx
+
+//@ func bloom.(*Filter).IsLoaded
+//@   requires !held(bf.mtx)
+//@   ensures !held(bf.mtx) && result == (bf.msgFilterLoad != nil)
+//@   modifies bf.mtx
+
+//@ func bloom.(*Filter).Reload
+//@   requires !held(bf.mtx)
+//@   ensures !held(bf.mtx) && bf.msgFilterLoad == filter
+//@   modifies bf.mtx, bf.msgFilterLoad
+
+//@ func bloom.(*Filter).Unload
+//@   requires !held(bf.mtx)
+//@   ensures !held(bf.mtx) && bf.msgFilterLoad == nil
+//@   modifies bf.mtx, bf.msgFilterLoad
+
+//@ func bloom.(*Filter).MsgFilterLoad
+//@   requires !held(bf.mtx)
+//@   ensures !held(bf.mtx) && result == bf.msgFilterLoad
+//@   modifies bf.mtx
+
+//@ func bloom.(*Filter).addOutPoint
+//@   requires held(bf.mtx) && outpoint != nil
+//@   requires bf.msgFilterLoad != nil ==> len(bf.msgFilterLoad.Filter) <= 36000
+//@   ensures held(bf.mtx) && bf.msgFilterLoad == old(bf.msgFilterLoad)
+//@   ensures bf.msgFilterLoad != nil ==> len(bf.msgFilterLoad.Filter) == old(len(bf.msgFilterLoad.Filter)) && bf.msgFilterLoad.HashFuncs == old(bf.msgFilterLoad.HashFuncs) && bf.msgFilterLoad.Tweak == old(bf.msgFilterLoad.Tweak)
+//@   ensures bf.msgFilterLoad != nil ==> forall j :: 0 <= j && j < len(bf.msgFilterLoad.Filter) ==> (bf.msgFilterLoad.Filter[j] & old(bf.msgFilterLoad.Filter[j])) == old(bf.msgFilterLoad.Filter[j])
+//@   modifies bf.msgFilterLoad.Filter[*]
+//@   opaque bloom.bitidx, bloom.mask
+//@   assert after PutUint32#1: (forall k :: 0 <= k && k < 32 ==> buf[k] == outpoint.Hash[k]) && buf[32] == u8(outpoint.Index) && buf[33] == u8(outpoint.Index >> 8) && buf[34] == u8(outpoint.Index >> 16) && buf[35] == u8(outpoint.Index >> 24)
+
+//@ func bloom.(*Filter).matchesOutPoint
+//@   requires held(bf.mtx) && outpoint != nil
+//@   requires bf.msgFilterLoad != nil ==> len(bf.msgFilterLoad.Filter) <= 36000
+//@   ensures bf.msgFilterLoad == nil ==> !result
+//@   modifies nothing
+//@   opaque bloom.bitidx
+//@   assert after PutUint32#1: (forall k :: 0 <= k && k < 32 ==> buf[k] == outpoint.Hash[k]) && buf[32] == u8(outpoint.Index) && buf[33] == u8(outpoint.Index >> 8) && buf[34] == u8(outpoint.Index >> 16) && buf[35] == u8(outpoint.Index >> 24)
+
+//@ func bloom.(*Filter).AddHash
+//@   requires !held(bf.mtx) && hash != nil
+//@   requires bf.msgFilterLoad != nil ==> len(bf.msgFilterLoad.Filter) <= 36000 && !sameobj(hash, bf.msgFilterLoad.Filter)
+//@   ensures !held(bf.mtx) && bf.msgFilterLoad == old(bf.msgFilterLoad)
+//@   ensures bf.msgFilterLoad != nil && len(bf.msgFilterLoad.Filter) >= 1 ==> forall k u32 :: k < bf.msgFilterLoad.HashFuncs ==> bloom.bitset(bf.msgFilterLoad.Filter, bloom.bitidx(k, bf.msgFilterLoad.Tweak, hash, 32, len(bf.msgFilterLoad.Filter)))
+//@   modifies bf.mtx, bf.msgFilterLoad.Filter[*]
+//@   opaque bloom.bitidx, bloom.mask
+
+//@ func bloom.(*Filter).AddOutPoint
+//@   requires !held(bf.mtx) && outpoint != nil
+//@   requires bf.msgFilterLoad != nil ==> len(bf.msgFilterLoad.Filter) <= 36000
+//@   ensures !held(bf.mtx) && bf.msgFilterLoad == old(bf.msgFilterLoad)
+//@   modifies bf.mtx, bf.msgFilterLoad.Filter[*]
+
+//@ func bloom.(*Filter).MatchesOutPoint
+//@   requires !held(bf.mtx) && outpoint != nil
+//@   requires bf.msgFilterLoad != nil ==> len(bf.msgFilterLoad.Filter) <= 36000
+//@   ensures !held(bf.mtx)
+//@   ensures bf.msgFilterLoad == nil ==> !result
+//@   modifies bf.mtx
+
+//@ func bloom.LoadFilter
+//@   ensures result != nil && fresh(result) && result.msgFilterLoad == filter && !held(result.mtx)
+//@   modifies nothing
+
+//@ func bloom.(*Filter).maybeAddOutpoint
+//@   requires held(bf.mtx) && bf.msgFilterLoad != nil && outHash != nil && len(bf.msgFilterLoad.Filter) <= 36000
+//@   ensures held(bf.mtx) && bf.msgFilterLoad == old(bf.msgFilterLoad)
+//@   ensures len(bf.msgFilterLoad.Filter) == old(len(bf.msgFilterLoad.Filter))
+//@   ensures bf.msgFilterLoad.HashFuncs == old(bf.msgFilterLoad.HashFuncs)
+//@   ensures bf.msgFilterLoad.Tweak == old(bf.msgFilterLoad.Tweak)
+//@   ensures bf.msgFilterLoad.Flags == old(bf.msgFilterLoad.Flags)
+//@   ensures forall j :: 0 <= j && j < len(bf.msgFilterLoad.Filter) ==> (bf.msgFilterLoad.Filter[j] & old(bf.msgFilterLoad.Filter[j])) == old(bf.msgFilterLoad.Filter[j])
+//@   ensures bf.msgFilterLoad.Flags == 0 ==> forall j :: 0 <= j && j < len(bf.msgFilterLoad.Filter) ==> bf.msgFilterLoad.Filter[j] == old(bf.msgFilterLoad.Filter[j])
+//@   modifies bf.msgFilterLoad.Filter[*]
+
+//@ func bloom.(*Filter).matchTxAndUpdate
+//@   requires held(bf.mtx) && bf.msgFilterLoad != nil && tx != nil && tx.msgTx != nil && len(bf.msgFilterLoad.Filter) <= 36000
+//@   requires forall k :: 0 <= k && k < len(tx.msgTx.TxOut) ==> tx.msgTx.TxOut[k] != nil
+//@   requires forall k :: 0 <= k && k < len(tx.msgTx.TxIn) ==> tx.msgTx.TxIn[k] != nil
+//@   ensures held(bf.mtx) && bf.msgFilterLoad == old(bf.msgFilterLoad)
+//@   modifies bf.msgFilterLoad.Filter[*], tx.txHash
+//@   loop 1 modifies bf.msgFilterLoad.Filter[*], tx.txHash
+//@   loop 1 invariant held(bf.mtx) && bf.msgFilterLoad == old(bf.msgFilterLoad) && tx.msgTx == old(tx.msgTx) && len(bf.msgFilterLoad.Filter) <= 36000
+//@   loop 1 invariant forall k :: 0 <= k && k < len(tx.msgTx.TxOut) ==> tx.msgTx.TxOut[k] != nil
+//@   loop 1 invariant forall k :: 0 <= k && k < len(tx.msgTx.TxIn) ==> tx.msgTx.TxIn[k] != nil
